@@ -19,7 +19,8 @@ CONSTANTS MaxOut, TimeDom, MaxTimes, MaxSamp, MaxCov
 VARIABLES nOut, times, nSamp, nCov, withRegimen, kind, phase
 vars == <<nOut, times, nSamp, nCov, withRegimen, kind, phase>>
 Checked == phase = "checked"
-ModelKinds == {"predictive", "population", "prior", "posterior", "pam"}
+\* "posteriorpop": a posterior predictive model over a POPULATION predictive model (the posterior holds population parameters)
+ModelKinds == {"predictive", "population", "prior", "posterior", "pam", "posteriorpop"}
 
 PR_Rng(s) == {s[i] : i \in DOMAIN s}
 PR_BagOfSeq(s) == [e \in PR_Rng(s) |-> Cardinality({i \in DOMAIN s : s[i] = e})]
